@@ -178,10 +178,22 @@ def extract_fn(src: Source, item: Item, stub=False):
         inserts.append((off, [('\n' + htext.strip('\n') + '\n', 'hint', anchor)]))
     if item.closures:
         cls = find_closures(masked, bo, en)
-        for ordinal, spec in item.closures.items():
-            if ordinal < 1 or ordinal > len(cls):
-                raise ScanError('%s: closure #%d not found (%d closures)' % (item.id, ordinal, len(cls)))
-            p0, p1, b0, b1, braced = cls[ordinal - 1]
+        targets = []
+        for key, spec in item.closures.items():
+            if isinstance(key, str) and key.startswith('params:'):
+                # every closure whose parameter list reads exactly like this gets the annotation (robust to closures
+                # being added or removed elsewhere in the function)
+                want = key[len('params:'):].strip()
+                hits = [(i + 1, c) for i, c in enumerate(cls) if text[c[0]:c[1]].strip('| ').strip() == want]
+                if not hits:
+                    raise ScanError('%s: no closure with parameters |%s|' % (item.id, want))
+                targets += [(i, c, spec) for i, c in hits]
+            else:
+                if key < 1 or key > len(cls):
+                    raise ScanError('%s: closure #%d not found (%d closures)' % (item.id, key, len(cls)))
+                targets.append((key, cls[key - 1], spec))
+        for ordinal, cl, spec in targets:
+            p0, p1, b0, b1, braced = cl
             # header `|params|` is replaced by typed params + named return + ensures (checked by Verus against the body);
             # an expression body is wrapped in braces
             hdr = '|%s| -> (%s)' % (spec['params'], spec['ret'])
